@@ -983,6 +983,98 @@ class MemReplay:
 INTEGRATORS = {"ias15": 0, "whfast": 1, "leapfrog": 4, "janus": 8, "mercurius": 9, "saba": 10, "eos": 11, "bs": 12, "trace": 25, "none": 7}
 
 
+# per-particle side array of each integrator as modelled in RV/Model/ParticlesSide.lean: (policy, slot 0 always written)
+SIDE_KIND = {"whfast": ("exact", 1), "saba": ("exact", 1), "janus": ("exact", 0), "bs": ("exact", 0),
+             "mercurius": ("grow", 0), "trace": ("grow", 0), "ias15": ("grow", 0)}
+SIDE_QUERIES = []      # (driver line, observed allocation, context) collected by dims_harness, checked by side_array_tie
+SKIP_EMPTY = {}        # integrator -> does its step leave the arrays alone when N == 0 (detected)
+
+
+def collect_side_queries(integ, lines, out):
+    if integ not in SIDE_KIND:
+        return
+    pol, s0 = SIDE_KIND[integ]
+    prev = None
+    for l, got in zip(lines, out):
+        g = got.split()
+        if len(g) < 6:
+            return
+        if l.startswith("step") and prev is not None:
+            SIDE_QUERIES.append(("side %s %d %%d %d %d" % (pol, s0, prev, int(g[1])), int(g[5]), (integ, l)))
+        prev = int(g[5])
+
+
+def side_array_tie(c, mr, mr_valgrind, exe, dims):
+    """RV.Particles.Side against the real code: the TRACE re-indexing loop on every (N, index), the allocation every
+    integrator's step leaves behind, and the two read-before-write / empty-simulation witnesses"""
+    # --- TRACE current_Ks: which loop is in the source?  (the Lean witness N = 4, index = 3 replayed), then every (N, index)
+    nmax = 12 if c.thorough else 8
+    L = ["ksprobe %d %d" % (n, i) for n in range(1, nmax + 1) for i in range(n)]
+    res = mr.run_text(["new 0 0 0 0"] + L, timeout=600)
+    got = {}
+    for l, o in zip(L, [x for x in res["out"] if x.startswith("K ")]):
+        t = o.split()
+        got[l] = (int(t[1]), int(t[2]), ",".join(t[3:]) or "-")
+    w = got.get("ksprobe 4 3")
+    new_, old_ = run_driver(exe, ["ks 1 4 3", "ks 0 4 3"])
+    reindexed = None if w is None else (True if w[2] == new_.strip() else (False if w[2] == old_.strip() else None))
+    c.cov["variant_detected"]["ksReindexed"] = reindexed
+    if res["bad"] or reindexed is None or len(got) != len(L):
+        c.corr_break("TRACE current_Ks probe: %s" % (res["report"][:300] if res["bad"] else "the result for N=4, index=3 (%s) is neither loop of the model" % (w,)))
+    else:
+        model = run_driver(exe, ["ks %d %s" % (reindexed, l.split(" ", 1)[1]) for l in L])
+        nd_ = 0
+        for l, m_ in zip(L, model):
+            n_, i_ = [int(x) for x in l.split()[1:]]
+            c.count(("ksprobe", n_, i_ == n_ - 1), nontrivial=n_ >= 3)
+            if got[l][2] != m_.strip() or got[l][0] != 1 or got[l][1] != n_ - 1:
+                nd_ += 1
+                if nd_ == 1:
+                    c.corr_break("TRACE current_Ks re-indexing: N=%d index=%d: real code %s, model %s" % (n_, i_, got[l], m_.strip()),
+                                 {"line": l, "impl": got[l], "model": m_})
+        dims["side_arrays:trace_current_Ks_all_N_index"] = len(L)
+        if not reindexed:
+            c.violation("F22:trace-current_Ks-misaligned-after-removing-the-last-particle-mid-step",
+                        "TRACE current_Ks after removing particle 3 of 4 mid-step: %s, row/column deleted would be %s" % (w[2], new_.strip()),
+                        {"harness": "ksprobe 4 3", "impl": w[2], "spec": new_.strip()})
+    # --- MERCURIUS part1: the Lean witness of F21 (safe_mode = 0, one particle added since the last step) under valgrind
+    mv = mr_valgrind if mr_valgrind is not None else (mr if not mr.sanitize else None)
+    if mv is not None:
+        L = ["new 0 0 0 9", "set dt 0.01", "set safemode 0", "addo 1 1.0 0.0 0.0 0.0 0.0 0.0 0.0 0.0",
+             "addo 100 0.0001 0.0 1.0 0.0 0.0 0.0 1.0 0.0", "addo 101 0.0001 0.0 2.0 0.0 0.0 0.0 0.7071 0.0", "step 1",
+             "addo 102 0.0001 0.0 3.0 0.0 0.0 0.0 0.57735 0.0", "step 1"]
+        res = mv.run_text(L, timeout=300)
+        uninit = res["bad"] and "uninitialised" in res["report"]
+        other = res["bad"] and not uninit
+        c.cov["variant_detected"]["dcritZeroFill"] = (not uninit) if not other else None
+        m0, m1 = run_driver(exe, ["mercp1 0 0 0 0 0 3 4", "mercp1 1 0 0 0 0 3 4"])
+        pred = (m1 if not uninit else m0).split()
+        dims["side_arrays:mercurius_part1_read_before_write"] = 1
+        c.count(("mercp1",), n=len(L))
+        nd_obs = int(res["out"][-1].split()[5]) if (not res["bad"] and len(res["out"]) == len(L)) else None
+        if other or pred[0] != "uninit=%d" % (1 if uninit else 0) or (nd_obs is not None and pred[1] != "nd=%d" % nd_obs):
+            c.corr_break("MERCURIUS part1: real code uninitialised-read=%s N_allocated_dcrit=%s, model %s" % (uninit, nd_obs, " ".join(pred)),
+                         {"report": res["report"][:600]})
+        if uninit:
+            c.violation("F21:mercurius-safe_mode0-add-then-step-synchronizes-with-uninitialised-dcrit",
+                        "MERCURIUS safe_mode=0, particle added between steps: " + res["report"][:300].replace("\n", " | "), {"harness_lines": L})
+    # --- allocation left behind by every step of the step histories (and the N = 0 witnesses)
+    if SIDE_QUERIES:
+        q = [ql % SKIP_EMPTY.get(ctx[0], 0) for ql, _, ctx in SIDE_QUERIES]
+        model = run_driver(exe, q)
+        bad = 0
+        for (ql, obs, ctx), qq, m_ in zip(SIDE_QUERIES, q, model):
+            a_, ok_ = m_.split()
+            dims["side_arrays:allocation_after_step:" + ctx[0]] = dims.get("side_arrays:allocation_after_step:" + ctx[0], 0) + 1
+            if int(a_) != obs:
+                bad += 1
+                if bad == 1:
+                    c.corr_break("side-array allocation after a step: %s: real code %d, model %s (query %s)" % (ctx[0], obs, a_, qq),
+                                 {"query": qq, "impl": obs, "model": m_})
+        c.count(("side-alloc",), n=len(q))
+        c.cov["side_array_allocation_checks"] = len(q)
+
+
 def planet_line(h, a, m=1e-4, r=0.0, phase=0.0, dirn=1.0):
     v = dirn / math.sqrt(a)
     return "addo %d %r %r %r %r 0.0 %r %r 0.0" % (h, m, r, a * math.cos(phase), a * math.sin(phase), -v * math.sin(phase), v * math.cos(phase))
@@ -1122,6 +1214,8 @@ def dims_harness(c, mr, dims, mr_valgrind=None):
                             if g[1] != exp_n or g[2] != exp_na or (l.startswith("rm") and not l.startswith("rmall") and g[0] != exp_rc):
                                 bad = "after %r (line %d): rc=%d N=%d N_active=%d, a plain list says rc=%d N=%d N_active=%d" % (
                                     l, i, g[0], g[1], g[2], exp_rc, exp_n, exp_na); break
+                if not res["bad"] and len(res["out"]) == len(lines):
+                    collect_side_queries(integ, lines, res["out"])
                 nstruct = sum(1 for l in lines if l.startswith(("rm", "addo")))
                 dims[key] = dims.get(key, 0) + nstruct
                 dims["option:" + vname] = dims.get("option:" + vname, 0) + nstruct
@@ -1146,6 +1240,11 @@ def dims_harness(c, mr, dims, mr_valgrind=None):
             res = mr_valgrind.run_text(L, timeout=300)
         dims["step_with_N_1_and_N_0:" + integ] = dims.get("step_with_N_1_and_N_0:" + integ, 0) + 3
         c.count(("dim-empty-step", integ), n=len(L))
+        if not res["bad"] and len(res["out"]) == len(L) and integ in SIDE_KIND:
+            # the step at N == 0 (line 8): did it re-size the array to 0 (no early return) or leave it alone?
+            before0, after0 = int(res["out"][7].split()[5]), int(res["out"][8].split()[5])
+            SKIP_EMPTY[integ] = 1 if (after0 == before0 and before0 != 0) else 0
+            collect_side_queries(integ, L, res["out"])
         if res["bad"]:
             rep_ = res["report"]
             k_ = "C14:step_with_N_1_and_N_0:" + integ
@@ -1615,6 +1714,7 @@ def run(c):
             except Infra:
                 mrv = None
         dims_harness(c, mr, dims, mrv)
+        side_array_tie(c, mr, mrv, exe, dims)
     dims["roles:N_active_set_in_tie"] = stats["ops"].get("setactive", 0)
     dims["variational_particles_present"] = stats["ops"].get("addvar", 0) + stats["ops"].get("setnvar", 0)
     dims["callback:free_particle_ap_installed"] = sum(stats["ops"].get(k, 0) for k in ("rm", "rmh"))
@@ -1630,7 +1730,9 @@ def run(c):
         "restore_then_lookup:archive", "restore_then_lookup:copy", "restore_then_lookup:pickle", "restore_then_lookup:simulationarchive",
         "scale:N_up_across_128_and_1024", "scale:N_down_across_1024_and_128", "roles:N_active_set_in_tie", "variational_particles_present",
         "callback:free_particle_ap_installed", "ap_pointer_travels_with_particle", "histories:tree_update_between_ops",
-        "histories:mercurius_step_between_ops_in_tie", "scale:allocation_steps_in_tie", "trace_midstep_removal_of_last_particle"] + [
+        "histories:mercurius_step_between_ops_in_tie", "scale:allocation_steps_in_tie", "trace_midstep_removal_of_last_particle",
+        "side_arrays:trace_current_Ks_all_N_index", "side_arrays:mercurius_part1_read_before_write"] + [
+        "side_arrays:allocation_after_step:" + k for k in SIDE_KIND] + [
         "step_with_N_1_and_N_0:" + k for k in ("whfast", "saba", "ias15", "leapfrog", "janus", "mercurius", "eos", "bs", "trace")]
     for k in required:
         if not dims.get(k):
